@@ -39,6 +39,7 @@ import os
 import shutil
 import sys
 import tempfile
+import zlib
 import threading as _rt
 from typing import Any, Callable, Dict, List, Optional, Tuple
 
@@ -376,7 +377,14 @@ class LoggerStand:
                 raise HarnessError("DataCollection does not create exactly the events write_to_disk, write_finished")
             evs[0].name, evs[1].name = "w2d", "fin"
             for i, (name, fmt) in enumerate(zip(self.ds_names, self.fmts)):
-                types = [self.typemap["A"].type_id] if i == 0 else [cd.ALL_MESSAGE_TYPES]
+                # the selection is a predicate (d1: type A only, the others: every type); how the LIST is spelled varies
+                # with the configuration: repeated entries, unused types, ALL next to individual types
+                a_id, b_id = self.typemap["A"].type_id, self.typemap["B"].type_id if "B" in self.typemap else 9999
+                sp = zlib.crc32(repr((tuple(fmts), naming, typemap, i)).encode()) % 3
+                if i == 0:
+                    types = [[a_id], [a_id, 9999, a_id], [a_id, a_id]][sp]
+                else:
+                    types = [[cd.ALL_MESSAGE_TYPES], [cd.ALL_MESSAGE_TYPES, a_id], [b_id, cd.ALL_MESSAGE_TYPES, a_id]][sp]
                 ds = DataSet("c17", name, "", name + "_r$(run)" if naming == "file" else name, get_formatter(fmt), intervals[min(i, len(intervals) - 1)], types, md)
                 self._io_point(ds)
                 self.dc.add_data_set(ds)
